@@ -125,12 +125,19 @@ def build_pipes(pipes, log):
     from eudoxia.workload.pipeline import Segment
     from eudoxia.utils import Priority
     out = []
+    scratch = []
     for pi, pd in enumerate(pipes):
         p = Pipeline(pd.get("id", f"p{pi}"), Priority[pd["prio"]])
         rops, mops = [], []
         for oi, od in enumerate(pd["ops"]):
             par = od.get("par", [])
-            op = p.new_operator([rops[j] for j in par] or None)
+            if pd.get("scratch_parents") and par:
+                # a caller that builds the parent list in a scratch list and reuses it for the next operator
+                scratch[:] = [rops[j] for j in par]
+                op = p.new_operator(scratch)
+                scratch[:] = []
+            else:
+                op = p.new_operator([rops[j] for j in par] or None)
             segs = []
             for (b, law, mem, read) in od["segs"]:
                 op.add_segment(Segment(baseline_cpu_seconds=float(b), cpu_scaling=law,
@@ -659,6 +666,7 @@ def run(scn, rng=None):
             # ---- scheduler phase: build the command objects ------------------
             rsus, msus, rasg, masg = [], [], [], []
             sus_cmds = []
+            asg_cmds = []
             tick_sig = []
             ended = False
             for cmd in cmds:
@@ -737,16 +745,18 @@ def run(scn, rng=None):
                         raise Violation("C02.construct.accepted", {"cmd": cmd, "model": str(mrej)}, t)
                     raise Violation("EX.crash", {"where": "Assignment()", "cmd": cmd, "exc": repr(rexc)[:200]}, t)
                 if mrej is not None:
+                    # the executor was never involved: the run goes on without this assignment (operators listed before
+                    # the refused one stay ASSIGNED in model and implementation alike)
                     tick_sig.append("X:construct")
                     _compare_states(built, t, "C02.refused_changed_state")
                     _check_counts(built, t)
-                    out["ended_by"] = "reject:construct"
-                    ended = True
-                    break
+                    out["faults"]["continued_after_refused_assignment"] = out["faults"].get("continued_after_refused_assignment", 0) + 1
+                    continue
                 mc = M.MCont(cmd["id"], mops, cpu, ram, cmd["pool"], b.prio)
                 lab[cmd["id"]] = mc
                 masg.append(mc)
                 rasg.append((cmd["id"], a))
+                asg_cmds.append(cmd)
                 tick_sig.append("A%d" % len(mops) + ("!" + fault if fault else ""))
             if ended:
                 sig.append(tick_sig)
@@ -792,6 +802,20 @@ def run(scn, rng=None):
                     tick_sig.append("R")
                     out["faults"]["continued_after_rejected_suspension"] = out["faults"].get("continued_after_rejected_suspension", 0) + 1
                     continue
+                if attempt == 0 and mrej.kind == "pool":
+                    # pool numbers are checked before any pool runs: the tick is repeated without the offending commands
+                    bad_s = [i for i, c_ in enumerate(sus_cmds) if c_.get("fault")]
+                    bad_a = [i for i, c_ in enumerate(asg_cmds) if c_.get("fault")]
+                    if bad_s or bad_a:
+                        rsus = [x for i, x in enumerate(rsus) if i not in bad_s]
+                        msus = [x for i, x in enumerate(msus) if i not in bad_s]
+                        sus_cmds = [x for i, x in enumerate(sus_cmds) if i not in bad_s]
+                        rasg = [x for i, x in enumerate(rasg) if i not in bad_a]
+                        masg = [x for i, x in enumerate(masg) if i not in bad_a]
+                        asg_cmds = [x for i, x in enumerate(asg_cmds) if i not in bad_a]
+                        tick_sig.append("R")
+                        out["faults"]["continued_after_unknown_pool"] = out["faults"].get("continued_after_unknown_pool", 0) + 1
+                        continue
                 out["ended_by"] = "reject:" + mrej.kind
                 stop = True
                 break
